@@ -43,14 +43,14 @@ Fixpoint toks (fuel : nat) (slots : nat) (s : str) : list str :=
   | _, _ => []
   end.
 
-Definition garbage (c : byte) : list str := [S_ "> :ircd sent garbage: -1 " ++ [c] ++ S_ " ..."].
+Definition garbage (c : byte) : list out := [ORaw (S_ "> :ircd sent garbage: -1 " ++ [c] ++ S_ " ...")].
 Definition in_set (c : byte) (l : str) : bool := existsb (fun x => (nb x =? nb c)%N) l.
 
 (* evbuffer_readln(EVBUFFER_EOL_CRLF): the line ends at LF; one CR directly before it is dropped *)
 Fixpoint strip_cr (s : str) : str :=
   match s with [] => [] | [c] => if (nb c =? 13)%N then [] else [c] | c :: r => c :: strip_cr r end.
 
-Definition step_line (c : cfg) (s : st) (raw0 : str) : st * list str :=
+Definition step_line (c : cfg) (s : st) (raw0 : str) : st * list out :=
   let raw := strip_cr raw0 in
   let line := cut_nul raw in
   match line with
@@ -71,4 +71,4 @@ Definition step_line (c : cfg) (s : st) (raw0 : str) : st * list str :=
   end.
 
 Definition run_lines (c : cfg) (ls : list str) : list (list str) :=
-  snd (fold_left (fun acc l => let '(s, outs) := acc in let '(s', o) := step_line c s l in (s', outs ++ [o])) ls ({| reqs := []; next := 0%N |}, [])).
+  map (map render) (snd (fold_left (fun acc l => let '(s, outs) := acc in let '(s', o) := step_line c s l in (s', outs ++ [o])) ls ({| reqs := []; next := 0%N |}, []))).
